@@ -483,7 +483,12 @@ func r09_5(c *Ctx, rule string) {
 	}
 	ls := fieldStoresIn(lit, "types.Stat.Linkname")
 	x := c.explorer(lit)
-	sym := modeBitTests(c, lit, x, modeSymlink)
+	symAll := modeBitTests(c, lit, x, modeSymlink)
+	// ... decided on the ENTRY's own info, not on some other stat in scope
+	sym := c.modeBitTestsOn(lit, x, modeSymlink, func(v ssa.Value) bool {
+		return c.DerivesFrom(v, func(y ssa.Value) bool { return c.isCallValueTo(y, "(io/fs.DirEntry).Info") }, 4)
+	})
+	c.R.Check(len(sym) == len(symAll), rule, base+"/symlink-test-on-entry", c.P.Pos(lit.Pos()), "the symlink test reads the mode of the entry being reported", "the test that tells a symlink's target from a hard-link name reads the mode of something other than the entry being reported (the sub-root's own stat?): symlink targets are prefixed like hard-link names")
 	nonSym := 0
 	for i, s := range ls {
 		ok := joinWithDir(s.Val, func(v ssa.Value) bool { return isFieldLoad(v, "types.Stat.Linkname") })
@@ -553,6 +558,27 @@ func r09_7(c *Ctx, rule string) {
 	c.R.Floor(rule, "mkstat calls in DirEntryInfo.Info", len(c.P.CallsTo(fn, "fsutil.mkstat")), 1)
 	for _, call := range c.P.CallsTo(fn, "(io/fs.DirEntry).Info") {
 		c.ObErrChecked(rule+"/checked", call)
+	}
+	// the stat is built once: after a successful mkstat every success return
+	// has stored it in the entry (mkstat consults and updates the walk's inode
+	// map, it is not idempotent)
+	for _, call := range c.P.CallsTo(fn, "fsutil.mkstat") {
+		cl, isCall := call.(*ssa.Call)
+		if !isCall {
+			continue
+		}
+		ek, _, _ := c.errValueOf(cl)
+		c.ObSuccessNeeds(rule, c.siteName(call)+"/cached", fn, call, map[string]bool{"(" + ek + "==nil)": true}, func(in ssa.Instruction) bool {
+			st, ok := in.(*ssa.Store)
+			if !ok {
+				return false
+			}
+			fa, ok := st.Addr.(*ssa.FieldAddr)
+			if !ok || eng.FieldOwnerName(fa.X.Type(), fa.Field) != "fsutil.DirEntryInfo.Stat" {
+				return false
+			}
+			return c.DerivesFrom(st.Val, func(y ssa.Value) bool { return y == ssa.Value(cl) }, 4)
+		}, "storing the stat in the entry (so that a second Info() does not run mkstat again)")
 	}
 	// every success return wraps a clone
 	ex := c.explorer(fn)
